@@ -19,7 +19,7 @@ theorem leave_core {t : Nat} (ht : t ∉ cyc) {w4 wF : World} (hinv : RInv R (t 
     (hrecs : wF.recs = w4.recs) (hdeps : wF.deps = w4.deps) (hrules : wF.rules = w4.rules)
     (hprogs : wF.progs = w4.progs) (hrc : wF.runCounter = w4.runCounter) (htrace : wF.trace = w4.trace)
     (hfs : ∀ z, z ≠ t → wF.fs z = w4.fs z)
-    (r5 : Rec) (hwf : WFrec R r5) (hov : r5.isOverride = false)
+    (r5 : Rec) (hwf : WFrec R r5) (hov : r5.isOverride = true → isFailedR r5 R = true)
     (hdone : isFailedR r5 R = true ∨ OKrec R (readStamp wF t) r5)
     (hp1 : isCheckedR r5 R = true → r5.failed = none)
     (hK : OKrec R (readStamp wF t) r5 → K R (t :: cyc) w4 t) :
@@ -101,12 +101,13 @@ theorem leave_core {t : Nat} (ht : t ∉ cyc) {w4 wF : World} (hinv : RInv R (t 
         · exact hy h
       exact hgood row (hinv.d.j y hy' ((hV0 y hyt).1 hV) hck hg ho row hrow4 hty)
   · -- OV
-    intro z hz
+    intro z hz hexz
     by_cases hzt : z = t
-    · subst hzt; rw [hself, hov] at hz; cases hz
+    · subst hzt; rw [hself] at hz ⊢; exact .inl (hov hz)
     · rw [hne z hzt] at hz ⊢
       rw [hrs z hzt]
-      exact hinv.d.ov z hz
+      rw [hex z hzt] at hexz
+      exact hinv.d.ov z hz hexz
   · intro z hz
     by_cases hzt : z = t
     · subst hzt; rw [hself] at hz ⊢; exact hp1 hz
@@ -239,23 +240,22 @@ theorem success_rec {t : Nat} {w4 wF : World} (hinv : RInv R (t :: cyc) w4) (hre
     refine ⟨(hbase.updateStamp _ _).setChanged, rfl, ⟨rfl, R, rfl, Nat.le_refl _, .inr ⟨?_, .inr (.inr rfl)⟩⟩, fun _ => rfl⟩
     exact updateStamp_stamp _ _ _ _
 
-theorem setFailed_props (hR : 0 < R) (w : World) (t : Nat) (sf : Rec) (hov : sf.isOverride = false)
+theorem setFailed_props (hR : 0 < R) (w : World) (t : Nat) (sf : Rec)
     (hck : isCheckedR sf R = false) :
-    (setFailed w t sf R).failed = some R ∧ (setFailed w t sf R).isOverride = false ∧
+    (setFailed w t sf R).failed = some R ∧
     isCheckedR (setFailed w t sf R) R = false ∧ (setFailed w t sf R).stamp = some (readStamp w t) ∧
     isFailedR (setFailed w t sf R) R = true := by
-  have h1 : (updateStamp w t sf R).isOverride = false ∧ isCheckedR (updateStamp w t sf R) R = false := by
+  have h1 : isCheckedR (updateStamp w t sf R) R = false := by
     unfold updateStamp
     simp only
     split
-    · exact ⟨hov, hck⟩
-    · exact ⟨rfl, by simpa [isCheckedR, setChanged] using hck⟩
-  refine ⟨rfl, h1.1, ?_, updateStamp_stamp _ _ _ _, isFailedR_self hR rfl⟩
-  have := h1.2
-  simpa [isCheckedR, setFailed] using this
+    · exact hck
+    · simpa [isCheckedR, setChanged] using hck
+  refine ⟨rfl, ?_, updateStamp_stamp _ _ _ _, isFailedR_self hR rfl⟩
+  simpa [isCheckedR, setFailed] using h1
 
 theorem recordNewState_spec (hR : 0 < R) (cx : Ctx) (hRid : cx.runid = R) {t : Nat} (ht : t ∉ cyc) {w4 : World}
-    (hinv : RInv R (t :: cyc) w4) (sf : Rec) (hsf : WFrec R sf) (hov : sf.isOverride = false)
+    (hinv : RInv R (t :: cyc) w4) (sf : Rec) (hsf : WFrec R sf)
     (hck : isCheckedR sf R = false) (rv : Status) (out : Option Content) (hK : rv = 0 → K R (t :: cyc) w4 t) :
     (recordNewState cx t sf rv out w4).1 = rv ∧
     LeavePost R cyc t w4 (recordNewState cx t sf rv out w4).2 ∧
@@ -276,7 +276,8 @@ theorem recordNewState_spec (hR : 0 < R) (cx : Ctx) (hRid : cx.runid = R) {t : N
         LeavePost R cyc t w4 (setRec (zapDeps2 wF t) t r5) ∧ Settled R cyc (setRec (zapDeps2 wF t) t r5) t := by
       intro wF h1 h2 h3 h4 h5 h6 h7 r5 h5'
       obtain ⟨a1, a2, a3, a4⟩ := success_rec hinv h1 r5 h5'
-      obtain ⟨b1, b2⟩ := leave_core ht hinv h1 h2 h3 h4 h5 h6 h7 r5 a1 a2 (.inr a3) a4 (fun _ => hK hrv)
+      obtain ⟨b1, b2⟩ := leave_core ht hinv h1 h2 h3 h4 h5 h6 h7 r5 a1 (fun h => by rw [a2] at h; cases h)
+        (.inr a3) a4 (fun _ => hK hrv)
       exact ⟨b1, b2 a3⟩
     have hsf' : ∀ (n : Option FNode) (w' : World), w'.fs = w4.fs → ∀ z, z ≠ t → (setFile w' t n).fs z = w4.fs z := by
       intro n w' e z hz
@@ -290,9 +291,9 @@ theorem recordNewState_spec (hR : 0 < R) (cx : Ctx) (hRid : cx.runid = R) {t : N
       obtain ⟨k1, k2⟩ := key (setFile w4 t none) rfl rfl rfl rfl rfl rfl (hsf' _ _ rfl) _ rfl
       exact ⟨hrv.symm, k1, fun _ => k2⟩
   · rw [if_neg hrv]
-    obtain ⟨f1, f2, f3, f4, f5⟩ := setFailed_props hR w4 t sf hov hck
+    obtain ⟨f1, f3, f4, f5⟩ := setFailed_props hR w4 t sf hck
     obtain ⟨b1, _⟩ := leave_core ht hinv (wF := w4) rfl rfl rfl rfl rfl rfl (fun _ _ => rfl)
-      (setFailed w4 t sf R) (hsf.setFailed _ _) f2 (.inl f5)
+      (setFailed w4 t sf R) (hsf.setFailed _ _) (fun _ => f5) (.inl f5)
       (fun h => by rw [f3] at h; cases h)
       (fun h => by rw [h.1] at f1; cases f1)
     exact ⟨rfl, b1, fun h => absurd h hrv⟩
@@ -330,7 +331,7 @@ theorem RStep.evWarn (w : World) (t : Nat) : RStep R cyc noAdd w (ev w (.warnOve
 /-- From the chosen .do file to the recorded result. -/
 theorem script_phase (hR : 0 < R) {E : Engine} (hE : ESpec R E) (d : Defects) (cx : Ctx) (hRid : cx.runid = R)
     (hcr : cx.crash = none) (hcyc : cx.cycles = cyc) {t : Nat} (ht : t ∉ cyc) (sf : Rec) (hsf : WFrec R sf)
-    (hov : sf.isOverride = false) (hck : isCheckedR sf R = false) (w3 : World) (dof : Nat)
+    (hck : isCheckedR sf R = false) (w3 : World) (dof : Nat)
     (hinv : RInv R cyc w3) (ho : Open R w3 t) (hdr : dof ∈ w3.rules t) (hdx : existsF w3 dof = true)
     (hrows : ∀ row ∈ w3.deps, row.target = t → row.deleteMe = false →
       GoodRow R cyc w3 row ∨ (row.modeM = true ∧ row.source = dof))
@@ -366,7 +367,7 @@ theorem script_phase (hR : 0 < R) {E : Engine} (hE : ESpec R E) (d : Defects) (c
     intro e; rw [e] at c4
     have : ¬ ((0 : Int) ≤ CRASHED) := by decide
     exact this c4
-  obtain ⟨e1, e2, e3⟩ := recordNewState_spec hR cx hRid ht c1 sf hsf hov hck rv out c3
+  obtain ⟨e1, e2, e3⟩ := recordNewState_spec hR cx hRid ht c1 sf hsf hck rv out c3
   refine ⟨hnc, ⟨e2.inv, ⟨?_, ?_, ?_, ?_⟩, e2.doneT, ?_, ?_⟩⟩
   · intro z hz
     have h4 := a2.settled z hz
@@ -400,7 +401,8 @@ theorem Open.rowEq' {w w' : World} {t : Nat} (ho : Open R w t) (h : RowEq w w') 
 
 theorem startSelf_spec (hR : 0 < R) {E : Engine} (hE : ESpec R E) (d : Defects) (cx : Ctx) (hRid : cx.runid = R)
     (hcr : cx.crash = none) (hcyc : cx.cycles = cyc) {t : Nat} (ht : t ∉ cyc) (sf0 : Rec) (hsf : WFrec R sf0)
-    (hov0 : sf0.isOverride = false) (hck0 : isCheckedR sf0 R = false) (w1 : World) (hinv : RInv R cyc w1)
+    (w1 : World) (hov0 : sf0.isOverride = true → existsF w1 t = true → sf0.isGenerated = true)
+    (hck0 : isCheckedR sf0 R = false) (hinv : RInv R cyc w1)
     (ho : Open R w1 t) : JobPost R cyc t w1 (startSelf E d cx t sf0 w1) := by
   unfold startSelf
   simp only [hRid]
@@ -408,8 +410,8 @@ theorem startSelf_spec (hR : 0 < R) {E : Engine} (hE : ESpec R E) (d : Defects) 
       (sf0.isOverride || detectOverride (sf0.stamp.getD .missing) (readStamp w1 t))) = b
   cases b with
   | true =>
-    -- the file was modified by hand: it becomes overridden
-    simp only [if_true, hov0, Bool.not_false]
+    -- the file was modified by hand (maybe once more): it becomes or stays overridden, with its new stamp
+    simp only [if_true]
     have hns : (readStamp w1 t != .missing) = true := by
       simp only [Bool.and_eq_true] at hb; exact hb.1.2
     have hex : existsF w1 t = true := existsF_of_readStamp hns
@@ -435,13 +437,32 @@ theorem startSelf_spec (hR : 0 < R) {E : Engine} (hE : ESpec R E) (d : Defects) 
     rw [hsame]
     exact ⟨b1, (RStep.evWarn w1 t).trans (a2.trans b2), .inr b3.1, fun _ => b3, by simp⟩
   | false =>
-    simp only [Bool.false_eq_true, if_false, hov0, Bool.false_or]
-    cases hst : (existsF w1 t && !sf0.isGenerated) with
+    simp only [Bool.false_eq_true, if_false]
+    -- an overridden copy that gets here belongs to a file that has disappeared
+    have hovex : sf0.isOverride = true → existsF w1 t = false := by
+      intro ho'
+      cases hex : existsF w1 t with
+      | false => rfl
+      | true =>
+        exfalso
+        have hg := hov0 ho' hex
+        have hns : (readStamp w1 t != .missing) = true := by
+          simp only [readStamp, existsF] at hex ⊢
+          cases hfs : w1.fs t with
+          | none => rw [hfs] at hex; cases hex
+          | some n => rfl
+        rw [hg, hns, ho'] at hb
+        simp at hb
+    cases hst : (existsF w1 t && (sf0.isOverride || !sf0.isGenerated)) with
     | true =>
       -- an existing file that is not redo's
-      simp only [if_true, Bool.not_false]
-      have hg : sf0.isGenerated = false := by
-        simp only [Bool.and_eq_true, Bool.not_eq_true'] at hst; exact hst.2
+      have hov' : sf0.isOverride = false := by
+        cases ho' : sf0.isOverride with
+        | false => rfl
+        | true =>
+          have := hovex ho'
+          rw [this] at hst; simp at hst
+      simp only [if_true, hov', Bool.not_false]
       obtain ⟨a1, a2, a3⟩ := hinv.settleWrite t ht (setStatic w1 t sf0 R) (hsf.setStatic _ _) rfl
         (updateStamp_stamp _ _ _ _) (.inl rfl) (fun _ => rfl)
       exact ⟨a1, a2, .inr a3.1, fun _ => a3, by simp⟩
@@ -467,7 +488,7 @@ theorem startSelf_spec (hR : 0 < R) {E : Engine} (hE : ESpec R E) (d : Defects) 
           exact ⟨a1, z2.trans (f2.trans a2), .inr a3.1, fun _ => a3, by simp⟩
         | false =>
           simp only [Bool.false_eq_true, if_false]
-          obtain ⟨p1, p2, p3, p4, p5⟩ := setFailed_props hR w3 t sf0 hov0 hck0
+          obtain ⟨p1, p3, p4, p5⟩ := setFailed_props hR w3 t sf0 hck0
           have hg0 : t = alwaysId → (setFailed w3 t sf0 R).isGenerated = false := by
             intro _
             show ((updateStamp w3 t sf0 R).stamp != some DStamp.missing) = false
@@ -479,7 +500,7 @@ theorem startSelf_spec (hR : 0 < R) {E : Engine} (hE : ESpec R E) (d : Defects) 
               | none => rfl
               | some n => rw [hf] at hex; cases hex
             rw [this]; rfl
-          obtain ⟨a1, a2, a3⟩ := f1.failWrite hR t ht ho3 (setFailed w3 t sf0 R) (hsf.setFailed _ _) p1 p2 p3 hg0
+          obtain ⟨a1, a2, a3⟩ := f1.failWrite hR t ht ho3 (setFailed w3 t sf0 R) (hsf.setFailed _ _) p1 p3 hg0
           refine ⟨a1, z2.trans (f2.trans a2), a3, fun h => ?_, (by show (0 : Int) ≤ 1; decide)⟩
           exact absurd (show (1 : Int) = 0 from h) (by decide)
       | some dof =>
@@ -497,7 +518,7 @@ theorem startSelf_spec (hR : 0 < R) {E : Engine} (hE : ESpec R E) (d : Defects) 
         generalize heq : runScript E d cx t _ _ = rr
         obtain ⟨rv, out, w6⟩ := rr
         dsimp only
-        have key := script_phase hR hE d cx hRid hcr hcyc ht sf0 hsf hov0 hck0 w3 dof f1 ho3 hdr hdx hrows _ ?_
+        have key := script_phase hR hE d cx hRid hcr hcyc ht sf0 hsf hck0 w3 dof f1 ho3 hdr hdx hrows _ ?_
           rv out w6 heq
         · rw [if_neg key.1]
           exact key.2.after (z2.trans f2)
